@@ -64,6 +64,32 @@ namespace rkverif {
     void put_fixed_u8(WriteStream &s, const utility::FixedArray<uint8_t> &v) { s << v; }
     void put_fixedview_u8(WriteStream &s, const utility::FixedArrayView<uint8_t> &v) { s << v; }
     void get_vec_u8(ReadStream &s, std::vector<uint8_t> &v) { s >> v; }
+
+    // --- the same values through a WriteSizeCalculator (static type of the stream is the calculator):
+    // overload resolution may pick a different operator here, which must predict the same byte count
+    void size_int(WriteSizeCalculator &s, const int &v) { s << v; }
+    void size_double(WriteSizeCalculator &s, const double &v) { s << v; }
+    void size_u8(WriteSizeCalculator &s, const uint8_t &v) { s << v; }
+    void size_size(WriteSizeCalculator &s, const size_t &v) { s << v; }
+    void size_pod(WriteSizeCalculator &s, const Pod &v) { s << v; }
+    void size_string(WriteSizeCalculator &s, const std::string &v) { s << v; }
+    void size_cstr(WriteSizeCalculator &s, const char *v) { s << v; }
+    void size_literal(WriteSizeCalculator &s) { s << "literal"; }
+    void size_vec_int(WriteSizeCalculator &s, const std::vector<int> &v) { s << v; }
+    void size_vec_pod(WriteSizeCalculator &s, const std::vector<Pod> &v) { s << v; }
+    void size_vec_string(WriteSizeCalculator &s, const std::vector<std::string> &v) { s << v; }
+    void size_vec_vec(WriteSizeCalculator &s, const std::vector<std::vector<int>> &v) { s << v; }
+    void size_vec_vec_string(WriteSizeCalculator &s, const std::vector<std::vector<std::string>> &v) { s << v; }
+    void size_abstract_u8(WriteSizeCalculator &s, const utility::AbstractArray<uint8_t> &v) { s << v; }
+    void size_abstract_int(WriteSizeCalculator &s, const utility::AbstractArray<int> &v) { s << v; }
+    void size_abstract_pod(WriteSizeCalculator &s, const utility::AbstractArray<Pod> &v) { s << v; }
+    void size_view_int(WriteSizeCalculator &s, const utility::ArrayView<int> &v) { s << v; }
+    void size_view_u8(WriteSizeCalculator &s, const utility::ArrayView<uint8_t> &v) { s << v; }
+    void size_owned_int(WriteSizeCalculator &s, const utility::OwnedArray<int> &v) { s << v; }
+    void size_owned_u8(WriteSizeCalculator &s, const utility::OwnedArray<uint8_t> &v) { s << v; }
+    void size_fixed_int(WriteSizeCalculator &s, const utility::FixedArray<int> &v) { s << v; }
+    void size_fixed_u8(WriteSizeCalculator &s, const utility::FixedArray<uint8_t> &v) { s << v; }
+    void size_fixedview_u8(WriteSizeCalculator &s, const utility::FixedArrayView<uint8_t> &v) { s << v; }
   }  // namespace c15
 }  // namespace rkverif
 
